@@ -21,6 +21,7 @@
 -/
 import QlibcModel.HashArr.WFCheckComplete
 import QlibcModel.HashArr.FaultSpec
+import QlibcModel.HashArr.Widths
 import QlibcModel.Shapes.Harr
 
 namespace Qlibc.Props.C07
@@ -56,10 +57,8 @@ theorem init_total (memsize : Nat) (hsz : memsize < 2 ^ 31 * Qlibc.Generated.Har
     obtain ⟨_, hc⟩ := initMem_eq memsize hsz _ he
     refine ⟨hlt, _, he, wf_init _ hc, rfl, rfl, rfl, (wf_init' _ hc).2, ?_⟩
     rw [(wf_init' _ hc).2]
-    have hH : Qlibc.Generated.HarrLayout.sizeofHeader = 12 := rfl
-    have hS : Qlibc.Generated.HarrLayout.sizeofSlot = 84 := rfl
-    have hA : Qlibc.Generated.HarrLayout.sizeofHandle = 128 := rfl
-    rw [hH, hS]; rw [hA] at hlt
+    have h1 := Nat.mul_div_le (memsize - Qlibc.Generated.HarrLayout.sizeofHeader) Qlibc.Generated.HarrLayout.sizeofSlot
+    have h2 := layout_ctor.2.2.1
     omega
 
 /-- `put` (all outcomes): never faults, result well-formed -/
@@ -129,6 +128,50 @@ theorem wf_reachable (cap : Nat) (hcap : 1 ≤ cap) (ops : List Op) (hv : ∀ op
   obtain ⟨hw, hn⟩ := wf_init' cap hcap
   obtain ⟨img, h1, h2, _⟩ := run_wf ops (init cap) hw (by rw [hn]; exact hv)
   exact ⟨img, h1, h2⟩
+
+/-- **the field widths of the current structs suffice** (the model keeps `count`, `hash`, `datasize`,
+    `link` and the header counters unbounded; `Fits cWidths img`: every value the code stores is
+    representable in the C field of `sizeofCount` / `sizeofHash` / `sizeofDatasize` / `sizeofLink` /
+    `sizeofMaxslots` bytes of the CURRENT header, so the model is exact on the image): for every
+    well-formed table of fewer than 2^31 slots, iff no home slot carries more than 32767 keys at once
+    (`count` is a 16-bit `short`: 1 + the number of colliding keys).  `hash` (32 bits) holds every
+    home-slot number and back-link, `link` (signed 32 bits) every extension-slot index, `datasize`
+    (8 bits) the 66 payload bytes of a slot — unconditionally below 2^31 slots. -/
+theorem widths_suffice (img : Img) (hw : WF img) (hmax : img.maxslots < 2147483648) :
+    Fits cWidths img ↔ ∀ h, h < img.n → (img.sl h).count ≥ 1 → img.ncoll h < 32767 :=
+  widths_suffice' hw hmax
+
+/-- ... and up to 32767 slots there is no condition at all -/
+theorem widths_suffice_small (img : Img) (hw : WF img) (hmax : img.maxslots ≤ 32767) : Fits cWidths img :=
+  widths_suffice_small' hw hmax
+
+/-- what ANY widths must hold (the converse, field by field): `count` 1 + the number of keys colliding in
+    each home; `hash` the index of every occupied home and of every predecessor of an extension block;
+    `link` the index of every extension block; the counters `maxslots` — a narrower `count`, `hash` or
+    `link` is contradicted by a reachable image (128 keys in one home; a key whose home lies beyond
+    65535; a value longer than 32 bytes stored beyond slot 32767) -/
+theorem widths_necessary (w : Widths) (img : Img) (hw : WF img) (hf : Fits w img) :
+    (∀ h, h < img.n → (img.sl h).count ≥ 1 → 1 + (img.ncoll h : Int) < sBound w.count) ∧
+    (∀ i, i < img.n → (img.sl i).count ≥ 1 → i < uBound w.hash) ∧
+    (∀ j, j < img.n → (img.sl j).count = -2 → (j : Int) < sBound w.link ∧ (img.sl j).hash < uBound w.hash) ∧
+    (img.n : Int) < sBound w.counter :=
+  fits_necessary w hw hf
+
+/-- every image reachable in a table of at most 32767 slots is representable: there the theorems of
+    C06 / C07 about the unbounded model are theorems about the C structs -/
+theorem widths_reachable (cap : Nat) (hcap : 1 ≤ cap) (hsmall : cap ≤ 32767) (ops : List Op) (hv : ∀ op ∈ ops, op.valid cap) :
+    ∃ img, run (init cap) ops = .ok img ∧ WF img ∧ Fits cWidths img := by
+  obtain ⟨hw, hn⟩ := wf_init' cap hcap
+  obtain ⟨img, h1, h2, h3⟩ := run_wf ops (init cap) hw (by rw [hn]; exact hv)
+  refine ⟨img, h1, h2, widths_suffice_small img h2 ?_⟩
+  have := h2.1.1
+  omega
+
+/-- `pair.namesize` is stored by the model itself (two little-endian bytes): exact for keys shorter than
+    2^16 bytes — the hypothesis `k.length < 65536` of the C06 theorems — and wrapping above -/
+theorem namesize_width (n : Nat) (hn : n < uBound Qlibc.Generated.HarrLayout.sizeofPairNamesize) :
+    ((le16 n).getD 0 0).toNat + 256 * ((le16 n).getD 1 0).toNat = n ∧ le16 65536 = le16 0 :=
+  ⟨namesize_exact n hn, namesize_wraps⟩
 
 /-- the Boolean checker evaluated by the correspondence driver after every operation is sound -/
 theorem wf_check_sound (img : Img) (h : wfCheck img = true) : WF img := wfCheck_sound h
